@@ -96,7 +96,8 @@ def enum_updates(seed):
     thorough = os.environ.get("VERIF_TIER") == "thorough"
     fails, cases = [], 0
     moves = [f"move {a} {b}" for a in NAMES for b in NAMES if a != b]
-    slots = [f"slotmove {a} 0 1" for a in NAMES]
+    # slotmoves name their packages by any versionless-slot atom: with an operator and a version the line still belongs to that package name
+    slots = [f"slotmove {a} 0 1" for a in NAMES] + ["slotmove <cat/a-2 0 1", "slotmove =cat/b-1.0 0 2"]
     junk = ["", "move cat/a", "move =cat/a-1 cat/b", "slotmove cat/a:0 0 1", "frobnicate cat/a cat/b", " move cat/a cat/b"]
     CMDS = moves + slots + junk[:3]
 
@@ -129,7 +130,7 @@ def enum_updates(seed):
                                         f"{'by date' if eapi == '7' else 'in name order'}): {diff}"})
     try:
         for n in range(1, 5):
-            pool = CMDS if n <= 3 else moves + slots[:2]
+            pool = CMDS if n <= 3 else moves + slots[:2] + slots[3:4]
             for seq in itertools.product(pool, repeat=n):
                 if n == 4 and not thorough and hash(seq) % 7:
                     continue
@@ -145,7 +146,8 @@ def enum_updates(seed):
                     check(fs, [1, 0], "two quarter files", eapi="7")
         rnd = random.Random(seed)
         names4 = NAMES + ("cat/d",)
-        pool = [f"move {a} {b}" for a in names4 for b in names4 if a != b] + [f"slotmove {a} {x} {y}" for a in names4 for x, y in (("0", "1"), ("1", "2"))] + junk
+        pool = [f"move {a} {b}" for a in names4 for b in names4 if a != b] + [f"slotmove {a} {x} {y}" for a in names4 for x, y in (("0", "1"), ("1", "2"))] + junk \
+            + [f"slotmove {op}{a}-{v} 0 3" for a in names4 for op, v in (("<", "2"), ("=", "1.0"), (">=", "1-r1"), ("~", "3"))]
         for _ in range(3000 if thorough else 600):
             seq = [rnd.choice(pool) for _ in range(rnd.choice((5, 7, 9)))]
             cut = sorted(rnd.sample(range(len(seq) + 1), 2))
@@ -164,7 +166,7 @@ def enum_updates(seed):
                           "detail": f"update files {fs}: 4Q-2019 precedes 1Q-2020 in time, the chain for cat/a is {norm(want).get('cat/a')}; reported {norm(got).get('cat/a')} (files are applied in name order, 1Q-2020 first)"})
     finally:
         shutil.rmtree(scratch, ignore_errors=True)
-    return {"name": "C42.read_updates.bounded_enumeration", "bound": f"every sequence of <= 3 lines over {len(CMDS)} commands and {'every' if thorough else 'a 1/7 sample of the'} 4-line sequences over {len(moves) + 2} commands (3 names), "
+    return {"name": "C42.read_updates.bounded_enumeration", "bound": f"every sequence of <= 3 lines over {len(CMDS)} commands (plain and operator-and-version slotmoves among them) and {'every' if thorough else 'a 1/7 sample of the'} 4-line sequences over {len(moves) + 2} commands (3 names), "
             "as one file and split over two files created in both orders (EAPI 8 naming) and over 7 kinds of quarter-file pairs applied by date (EAPI 7: same year with and without 4Q, across years); seeded random sequences of 5..9 lines over 4 names in 3 files under both conventions", "cases": cases, "failures": fails}
 
 
